@@ -600,6 +600,27 @@ def own_notify_for(ctx, fi, exc_name):
         and list(tq.args(st[1][0]).values())[0][0] == 'exc'
 
 
+def miss_path(pc, exc='StopIteration'):
+    """this path is taken when - and only when - the lookup's exception was caught: directly under the handler, or under a test of the
+    value the handler leaves behind (`x = None` in the handler, then `if x is None`)"""
+    from ..sval import is_const, cval
+    from .. import tq
+
+    def is_caught(t):
+        return t[0] == 'caught' and exc in tq.text(t)
+
+    def under(v):
+        return lambda t: v if is_caught(t) else None
+    rel = [a for a in pc if is_caught(a[0]) or tq.find(a[0], is_caught)]
+    if not rel:
+        return False
+    hit = [tq.restrict(a[0], under(True)) if not is_caught(a[0]) else ('const', 'bool', True) for a in rel]
+    oth = [tq.restrict(a[0], under(False)) if not is_caught(a[0]) else ('const', 'bool', False) for a in rel]
+    holds = all(is_const(h) and bool(cval(h)) == a[1] for h, a in zip(hit, rel))
+    fails = any(is_const(o) and bool(cval(o)) != a[1] for o, a in zip(oth, rel)) or any(not is_const(o) for o in oth)
+    return holds and fails
+
+
 def lookup_side(pc, key):
     """which side of a table lookup by `key` a path condition is on: 'miss' when the KeyError of the lookup was caught or the membership
     test `key in <table>` failed, 'hit' when nothing else constrains the path (at most the membership test held), else None.
